@@ -18,6 +18,13 @@ func pickPageSize(t *Tape) uint32 {
 	return pageSizes[t.Pick([]int{40, 14, 8, 14, 6, 6, 6, 6})]
 }
 
+// pickSectorSize draws the journal sector size the simulated VFS reports: SQLite
+// takes it from xSectorSize (512 or 4096 on unix builds) but accepts any power of
+// two from 32 to 65536 and writes it into each journal segment header.
+func pickSectorSize(t *Tape) uint32 {
+	return []uint32{512, 4096, 32, 64, 1024, 65536}[t.Pick([]int{10, 4, 2, 1, 1, 1})]
+}
+
 // newStaticPrimary opens a single primary node with the static leaser.
 func newStaticPrimary(r *Run, compress bool, tune func(*litefs.Store)) *Node {
 	var n *Node
@@ -122,6 +129,8 @@ func init() {
 func runC02(r *Run) {
 	t := r.Tape
 	pageSize := pickPageSize(t)
+	r.SectorSize = pickSectorSize(t)
+	r.Cfg["sector_size"] = r.SectorSize
 	mode := []string{ModeDelete, ModeTruncate, ModePersist}[t.Next(3)]
 	compress := t.Chance(1, 2)
 	keepJFD := t.Chance(1, 2)
@@ -138,6 +147,9 @@ func runC02(r *Run) {
 	lockPageRun := r.Thorough() && pageSize == 65536 && t.Chance(1, 12)
 	r.Cfg["page_size"], r.Cfg["mode"], r.Cfg["lz4"], r.Cfg["keep_jfd"], r.Cfg["programs"] = pageSize, mode, compress, keepJFD, nprog
 	r.Cfg["lock_page_run"] = lockPageRun
+	if lockPageRun {
+		r.UseDiskScratch() // a 1 GiB database and a 1 GiB transaction file
+	}
 
 	n := newStaticPrimary(r, compress, nil)
 	if n == nil {
